@@ -238,7 +238,15 @@ class Replayer:
       if o is not self.obj[n]:
         raise Divergence('bind', 'd |= x rebound the name to a different object')
     else:
-      o.update(d)
+      # dict.update accepts a mapping, keyword arguments, or both in one call: alternate the three forms
+      self._upd_count = getattr(self, '_upd_count', 0) + 1
+      items = list(d.items())
+      if self._upd_count % 3 == 1 and len(items) == 2:
+        o.update({items[0][0]: items[0][1]}, **{items[1][0]: items[1][1]})
+      elif self._upd_count % 3 == 2:
+        o.update(**d)
+      else:
+        o.update(d)
 
   def do_ListSet(self, n, i, vd):
     self.obj[n][i] = self.vd(vd)
